@@ -10,6 +10,8 @@ OL_INTERRUPT: _ol_reserved_name = "__ol_interrupt_{}"
 OL_WRAPPED_ITER: _ol_reserved_name = "__ol_it_{}"
 OL_FOR_TMP: _ol_reserved_name = "__ol_for_{}"
 OL_ITER_WRAPPER: _ol_reserved_name = "__ol_iter_wrapper"  # don't need format here
+OL_ITERTOOLS: _ol_reserved_name = "__ol_itertools"  # don't need format here
+OL_IMPORTLIB: _ol_reserved_name = "__ol_importlib"  # don't need format here
 OL_ASSIGN_TMP: _ol_reserved_name = "__ol_assign_{}"
 OL_AUGASSIGN_TMP: _ol_reserved_name = "__ol_augass_{}"
 OL_AUGASSIGN_OBJ_TMP: _ol_reserved_name = "__ol_augobj_{}"
